@@ -41,7 +41,7 @@ def unary_forms(a):
     out += [
         (f"-({t})", "USub"), (f"+({t})", "UAdd"), (f"~({t})", "Invert"), (f"not ({t})", "Not"),
         (f"({t})()", "Call0"), (f"({t})(k=1)", "CallKw"), (f"({t})[0]", "SubIdx"), (f"({t})['k']", "SubKey"),
-        (f"({t})[1:2]", "SubSlice"), (f"lambda q: ({t})", "Lambda"), (f"lambda e: ({t})", "LambdaShadow"), (f"[{t}]", "List1"), (f"({t},)", "Tuple1"),
+        (f"({t})[1:2]", "SubSlice"), (f"lambda q: ({t})", "Lambda"), (f"lambda q, r=(1, 2), *s, k=3, **kw: ({t})", "LambdaManyParams"), (f"lambda: lambda q, r: ({t})", "LambdaInLambda"), (f"lambda e: ({t})", "LambdaShadow"), (f"[{t}]", "List1"), (f"({t},)", "Tuple1"),
         (f"{{'k': ({t})}}", "Dict1"), (f"{{'jet-pt': ({t})}}", "DictHyphen"), (f"{{'class': ({t})}}", "DictKeyword"),
         (f"{{'': ({t})}}", "DictEmptyKey"), (f"{{'self': ({t}), 'cls': 1}}", "DictSelfKey"), (f"{{'__debug__': ({t})}}", "DictDebugKey"), (f"{{'self': ({t})}}.self", "DictSelfKeyAttr"), (f"{{'a b': ({t})}}", "DictSpace"), (f"({t}).m()", "Method0"),
         # keys that are no plain constants: a negative number (a UnaryOp), a tuple, a key only known when the query runs, a ** entry
@@ -133,6 +133,8 @@ def kind(n):
             return "str"  # ('%d jets' % anything) is text whatever the right side is
         if "unknown" in (kl, kr):
             return "unknown"
+        if kl == kr == "bool" and isinstance(n.op, (ast.BitAnd, ast.BitOr, ast.BitXor)):
+            return "bool"  # python: True ^ True is False, a truth value
         if kl in ("num", "bool") and kr in ("num", "bool"):
             return "num"
         # what python computes for text: 'a' + 'b', 'ab' * 2, 2 * 'ab', '%d' % n
